@@ -146,7 +146,11 @@ class _LogTap(object):
 
 
 LOGTAP = _LogTap()
-globalLogPublisher.addObserver(LOGTAP)
+try:
+    from twisted.logger import globalLogBeginner
+    globalLogBeginner.beginLoggingTo([LOGTAP], redirectStandardIO=False, discardBuffer=True)
+except Exception:  # noqa: BLE001
+    globalLogPublisher.addObserver(LOGTAP)
 
 import mqtt  # noqa: E402
 from mqtt import v31, v311  # noqa: E402,F401
